@@ -84,6 +84,7 @@ type loopInfo struct {
 	spec     *LoopSpec
 	pre      *State
 	preAlloc string
+	iterAlloc string
 	decrName string
 }
 
@@ -1037,6 +1038,9 @@ func (g *FuncGen) enterLoop(l *loopInfo) {
 		g.assume(fmt.Sprintf("(>= %s %s)", g.alloc(), preAlloc))
 	}
 	l.preAlloc = preAlloc
+	// allocation counter at the start of the (arbitrary) iteration about to be executed: everything allocated
+	// from here on was allocated in this iteration (see the spec builtin freshin)
+	l.iterAlloc = g.defConst("iteralloc", "Int", g.alloc())
 	// 3. assume invariants
 	if l.spec != nil {
 		cx := g.newSpecCtx(g.st, g.entry)
